@@ -80,10 +80,12 @@ USAGE = TDict(network_storage=TInt(0, 2 ** 53), content_storage=TInt(0, 2 ** 53)
 CAND = TList(TTuple(TStr(), TInt(0, 2 ** 53), TInt()))
 
 
-async def harness(usage, cand, is_network, content_limit, network_limit):
+async def harness(usage, cand, is_network, content_limit, network_limit, cache):
     db = DB(usage, cand)
     bm = BlobManager()
     dsm = DiskSpaceManager(Config(content_limit, network_limit), db, bm)
+    # any earlier history (status calls, earlier passes) is summarised by an arbitrary cached snapshot
+    dsm._used_space_bytes = cache
     n = await dsm._clean(is_network)
     return n, bm.deleted, db.asked, db.stopped, bm.calls, bm.from_db, dsm._used_space_bytes
 
@@ -91,7 +93,8 @@ async def harness(usage, cand, is_network, content_limit, network_limit):
 @proof("C19", "_clean")
 class CleanProof:
     """all clauses of the statement for one cleanup pass over one storage class"""
-    inputs = dict(usage=USAGE, cand=CAND, is_network=TBool(), content_limit=TInt(0), network_limit=TInt(0))
+    inputs = dict(usage=USAGE, cand=CAND, is_network=TBool(), content_limit=TInt(0), network_limit=TInt(0),
+                  cache=TOpt(USAGE))
     note = "limits 0..3 MB x usage around the limits x up to 3 candidates of sizes around 1 MB multiples"
 
     run = harness
@@ -128,6 +131,10 @@ class CleanProof:
     def ensures_result_counts_deleted(result):
         return result[0] == len(result[1])
 
+    def ensures_cache_dropped(result):
+        # a pass that got as far as the deletion loop leaves no stale usage snapshot behind
+        return implies(len(result[1]) > 0, result[6] is None)
+
     def ensures_files_stopped_before_delete(result):
         n, deleted, asked, stopped, calls, from_db, cache = result
         return implies(len(deleted) > 0, stopped == 1 and calls == 1 and from_db) and implies(len(deleted) == 0, calls == 0)
@@ -141,9 +148,13 @@ class CleanProof:
                         for priv in (0, MB):
                             for n in range(4):
                                 cand = [(f"h{i}", sizes[(i + n) % 4], i) for i in range(n)]
-                                yield dict(usage=dict(network_storage=used, content_storage=used, private_storage=priv,
-                                                      total=2 * used + priv),
-                                           cand=cand, is_network=is_network, content_limit=cl, network_limit=nl)
+                                for cache in (None, dict(network_storage=0, content_storage=0, private_storage=0, total=0),
+                                              dict(network_storage=9 * MB, content_storage=9 * MB, private_storage=0,
+                                                   total=18 * MB)):
+                                    yield dict(usage=dict(network_storage=used, content_storage=used, private_storage=priv,
+                                                          total=2 * used + priv),
+                                               cand=cand, is_network=is_network, content_limit=cl, network_limit=nl,
+                                               cache=cache)
 
 
 async def harness_clean(usage, cand_content, cand_network, content_limit, network_limit):
